@@ -1,4 +1,7 @@
-use super::{SolverState, clause::WatchedLiterals};
+use super::{
+    SolverState,
+    clause::{Clause, WatchedLiterals},
+};
 use crate::{
     Candidates, Dependencies, DependencyProvider, NameId, Requirement, SolvableId, SolverCache,
     StringId, VersionSetId,
@@ -337,6 +340,20 @@ impl<'a, D: DependencyProvider> Encoder<'a, D> {
         for &forbidden_candidate in candidates {
             let forbidden_candidate_var =
                 self.state.variable_map.intern_solvable(forbidden_candidate);
+
+            // A solvable that constrains its own package to versions that do not
+            // include itself can never be installed. The clause (¬A ∨ ¬A) has a single
+            // literal, so it is tracked as an assertion instead of through watches.
+            if forbidden_candidate_var == variable {
+                let kind = Clause::Constrains(variable, variable, constraint);
+                let clause_id = self.state.clauses.alloc(None, kind);
+                self.state.negative_assertions.push((variable, clause_id));
+                if self.state.decision_tracker.assigned_value(variable) == Some(true) {
+                    self.conflicting_clauses.push(clause_id);
+                }
+                continue;
+            }
+
             let (watched_literals, conflict, kind) = WatchedLiterals::constrains(
                 variable,
                 forbidden_candidate_var,
